@@ -60,3 +60,8 @@ CHECKS['C07'] = ('model_checking',
   'Every distinct model reached by bounded histories of add/remove asset/association/attacker/entry-point calls (id gaps, explicit/zero/negative ids, renamed assets, duplicate-named association classes, several attackers) and a family of models with YAML-significant/unicode names, non-default defenses, asset and association extras is saved to .json/.yml/.yaml and loaded back (content equality incl. every defense value, extras, entry points; second save identical); every permutation of the asset mapping in a hand-written file and the type-only shorthand must load to the model described.',
   'Trusted: json, PyYAML, python_jsonschema_objects. Byte layout of files not compared.',
   'DESIGN.md 3/C07')
+CHECKS['C04'] = ('exploration',
+  'bounded-exhaustive enumeration of programs generated from specifications (expression / TTC trees, declaration forms, include layouts), print-compile round trip as oracle',
+  'Every step-expression tree up to the operator bound in the four contexts and list positions, every TTC tree up to the bound, all 49 multiplicity form pairs, the product of step / asset / category / association forms, every include layout of a 6-declaration program and both shipped .mar specifications are printed with minimal parentheses and compiled by the real compiler; the result must equal the specification (dict equality incl. list order), layouts must agree.',
+  'Trusted: the 150-line unparser (validated by the exact round trip of both malc-produced .mar specifications), ANTLR runtime and generated parser.',
+  'DESIGN.md 3/C04')
